@@ -176,12 +176,13 @@ def Op.sender? : Op → Option Acct
   | .cancel who .. => some who
   | .withdraw who .. => some who
 
+def inMarket (debt coll : Nat) (k : Key) : Bool := decide (k.debt = debt ∧ k.coll = coll)
+def inDenom (assets : List (Nat × Denom)) (d : Denom) (k : Key) : Bool := decide (denomOf assets k.debt = some d)
+
 /-- total of the deposits of one market -/
-def marketSum (deps : List (Key × Int)) (debt coll : Nat) : Int :=
-  sumK (fun k => decide (k.debt = debt ∧ k.coll = coll)) deps
+def marketSum (deps : List (Key × Int)) (debt coll : Nat) : Int := sumK (inMarket debt coll) deps
 
 /-- total of the deposits held in denomination `d` -/
-def denomSum (s : State) (d : Denom) : Int :=
-  sumK (fun k => decide (denomOf s.assets k.debt = some d)) s.deps
+def denomSum (s : State) (d : Denom) : Int := sumK (inDenom s.assets d) s.deps
 
 end Comdex.LimitBid
